@@ -1,5 +1,6 @@
 import RosuModel.Model.PipelinePerf
 import RosuModel.Props.C02d
+import RosuModel.Props.C02g
 import RosuModel.Props.C04c
 import RosuModel.Gen.GradualPerf
 
@@ -59,6 +60,52 @@ theorem mania_gradual_perf_exhausted (A : SecArith R) (fuel : Nat) (bytes : List
     rw [if_neg h0]
     have hg := (Rosu.C02d.mania_pipeline_gradual_eq_oneshot A fuel (P.dec64 (clockRateBits mods rate)) cols l).1
     rw [hg, List.getElem?_eq_none (by simp; omega)]
+
+/-! ## taiko (file bytes) -/
+
+section taiko
+variable {R : Type} [FOps R] [NumOps R] [PPOps R] (O : Rosu.PipelineTaiko.TOps R)
+open Rosu.PipelineTaiko (recordsOf oneShotSkills)
+
+/-- **`gradual_perf_eq_oneshot_perf`** (taiko from bytes, every arithmetic, EVERY score state): for a file that
+decodes to a taiko map with hit flags `hits` and one record per difficulty object (`hlen`, the remaining clause of
+`C02g.taiko_pipeline_gradual_eq_oneshot`), and every `1 ≤ i ≤ number of hits` (`< 2^32`): advancing the gradual
+performance calculator to the `i`-th hit with state `s` = one-shot performance on the same bytes with
+`passed_objects(i)` and `.state(s)`. -/
+theorem taiko_gradual_perf_eq_oneshot_perf (A : SecArith R) (fuel : Nat) (bytes : List UInt8) (mods : Nat)
+    (rate : Option Nat) (hw : R) (i : Nat) (s : TaikoState) (d : Rosu.DecodeLine.Decoded) (hits : List Bool)
+    (recs : List (Rosu.TaikoSkill.TObj R))
+    (hd : Rosu.DecodeLine.fromBytes bytes = some d)
+    (hr : recordsOf O d (O.dec64 (Rosu.PipelineTaiko.clockRateBits mods rate)) mods = .ok (hits, recs))
+    (hlen : recs.length = hits.length - 2) (hi : 1 ≤ i) (hn : i ≤ Rosu.Gradual.hitsIn hits) (h32 : i < 2 ^ 32) :
+    taikoGradualPerfValue O A fuel bytes mods rate hw i s =
+      taikoOutMap some (taikoPerfFromMap O A fuel bytes mods rate (some i) hw .best (TaikoB.fresh.update s)) := by
+  unfold taikoGradualPerfValue taikoPerfFromMap taikoDifficultyAttrs Rosu.PipelineTaiko.taikoSkillsOfBytes
+  rw [hd]
+  simp only [hr]
+  have h0 : ¬ i = 0 := by omega
+  rw [if_neg h0]
+  have hg : taikoGradualList A fuel hw hits recs = (List.range (Rosu.Gradual.hitsIn hits)).map
+      (fun k => Rosu.Gradual.Res.some (oneShotSkills A fuel hw hits recs (k + 1))) :=
+    (Rosu.C02g.taiko_pipeline_gradual_eq_oneshot A fuel hw hits recs hlen).1
+  rw [hg]
+  have hidx : ((List.range (Rosu.Gradual.hitsIn hits)).map
+      (fun k => Rosu.Gradual.Res.some (oneShotSkills A fuel hw hits recs (k + 1))))[i - 1]?
+      = some (Rosu.Gradual.Res.some (oneShotSkills A fuel hw hits recs i)) := by
+    rw [List.getElem?_map, List.getElem?_range (by omega)]
+    simp only [Option.map_some]
+    congr 3
+    omega
+  rw [hidx]
+  have hm : (some i).getD (2 ^ 64 - 1) % 2 ^ 32 = i := by
+    simp only [Option.getD_some]
+    exact Nat.mod_eq_of_lt h32
+  rw [hm]
+  generalize oneShotSkills A fuel hw hits recs i = os
+  obtain ⟨mc, r⟩ := os
+  cases r <;> rfl
+
+end taiko
 
 /-- the generated call chains of the four `performance/gradual.rs` are the one the model transcribes -/
 theorem gradual_perf_chains_as_modelled :
